@@ -133,7 +133,7 @@ def make_config(rng):
   opts = gen.Opts(max_nodes=rng.choice([3, 6, 10]), max_depth=4, p_share=0.25, p_clone=0.1,
                   btypes=['Config', 'Config', 'Partial'], fns=FNS, lattice=0.1, leaves=LEAVES,
                   containers=['list', 'dict', 'dict', 'tuple', 'list'], p_container=0.4, uid=False,
-                  dict_keys=['k', 'j', 'a b', 3, 0, 'x.y', 'k2', 17, 'back\\slash', 'new\nline', 'tab\t',
+                  dict_keys=['k', 'j', 'a b', 3, 0, 'x.y', 'enc.0', 'v1.5.w', 'k2', 17, 'back\\slash', 'new\nline', 'tab\t',
                              'caf\u00e9', 'ctl\x01'])
   g = gen.DagGen(rng, opts)
   return g.dag()
@@ -283,7 +283,25 @@ def make_flag():
 def gen_directives(rng):
   """Returns (directive strings, model thunks) - model = the same steps done by hand."""
   seq = []
-  base_kind = rng.choice(['config', 'config', 'config_str', 'auto', 'lit', 'dups'])
+  base_kind = rng.choice(['config', 'config', 'config_str', 'auto', 'lit', 'dups', 'container'])
+  if base_kind == 'container':
+    n = rng.choice([1, 2])
+    seq.append((f'config:base_container({n})', lambda cfg, n=n: flagmod.base_container(n)))
+    names = []
+    for _ in range(rng.randint(1, 3)):
+      r = rng.random()
+      if r < 0.5:
+        nm = rng.choice(['extra', 'head', 'v1.5'])
+        names.append(nm)
+        seq.append((f'fiddler:add_member({nm!r})', lambda cfg, nm=nm: flagmod.add_member(cfg, nm)))
+      elif names and r < 0.8:
+        nm = rng.choice(names)
+        v = lit(rng)
+        seq.append((f'set:[{nm!r}].b={v!r}', lambda cfg, nm=nm, v=v: (setattr(cfg[nm], 'b', v), cfg)[1]))
+      else:
+        v = rng.randint(0, 9)
+        seq.append((f"set:['m0'].x={v!r}", lambda cfg, v=v: (setattr(cfg['m0'], 'x', v), cfg)[1]))
+    return seq
   if base_kind == 'dups':
     v = rng.choice([0, 3, 'w'])
     seq.append((f'config:base_dups({v!r})', lambda cfg, v=v: flagmod.base_dups(v)))
